@@ -5,7 +5,7 @@ use serde::{Deserialize, Serialize};
 use tevec::export::polars::prelude::{Float64Chunked, Int32Chunked};
 use tevec::prelude::{AggValidBasic, GetLen, MapValidBasic, TIter, Vec1View, VecAggValidExt, QuantileMethod};
 use tvh::conv::OutElem;
-use tvh::engine::{fail, main_for, sub, CheckResult, Fail, Obs, Property, Tier};
+use tvh::engine::{catch, fail, main_for, sub, CheckResult, Fail, Obs, Property, Tier};
 use tvh::fuzzable::{hint_law_bi, hint_law_fwd};
 use tvh::gen::*;
 use tvh::model::{Stat, Stat2};
@@ -101,19 +101,44 @@ fn classify(p: &PlCase, ca: &Float64Chunked, obs: &mut Obs) {
     obs.class_if(p.c.x.iter().any(|v| v.is_none()), "validity_bitmap");
 }
 
+/// In a third of the cases some valid slots hold a NaN payload (`Some(NaN)`: a NaN stored under a set
+/// validity bit). What such an element means is not asked (DESIGN 5.4); that the Polars array and the
+/// Vec<Option<f64>> holding the same elements behave identically is (pure differential).
+fn payload(p: &PlCase, obs: &mut Obs) -> Series {
+    if (p.cuts.len() + p.c.w) % 3 != 0 {
+        return p.c.x.clone();
+    }
+    obs.class("nan_payload_in_valid_slots");
+    p.c.x.iter().enumerate().map(|(i, v)| if v.is_some() && (i * 5 + p.c.w) % 4 == 0 { Some(f64::NAN) } else { *v }).collect()
+}
+
 fn check_rolling(p: &PlCase, obs: &mut Obs) -> CheckResult {
     let stat = STATS[(p.c.p as usize) % STATS.len()];
     let name = format!("ts_v{}", stat.name());
-    let x = &p.c.x;
+    let xs = payload(p, obs);
+    let x = &xs;
     let ca = chunked(x, &p.cuts);
     classify(p, &ca, obs);
     let v: Vec<Option<f64>> = x.clone();
     let (w, mp) = (p.c.w, p.c.mp);
+    let has_payload = x.iter().any(|v| matches!(v, Some(f) if f.is_nan()));
     macro_rules! both {
         ($U:ty) => {{
-            let reference: Vec<$U> = match stat {
-                Stat::Fdiff(d) => sut::roll_vfdiff::<_, Option<f64>, Vec<$U>, $U>(&v, d, w, mp, None).unwrap(),
-                _ => sut::roll_valid::<_, Option<f64>, Vec<$U>, $U>(&v, stat, w, mp, None).unwrap(),
+            let reference = catch(|| -> Vec<$U> {
+                match stat {
+                    Stat::Fdiff(d) => sut::roll_vfdiff::<_, Option<f64>, Vec<$U>, $U>(&v, d, w, mp, None).unwrap(),
+                    _ => sut::roll_valid::<_, Option<f64>, Vec<$U>, $U>(&v, stat, w, mp, None).unwrap(),
+                }
+            });
+            let reference: Vec<$U> = match reference {
+                Ok(r) => r,
+                // what a NaN payload means to a statistic is not asked (5.4): if the Vec reference itself
+                // gives up on it there is nothing to compare the Polars array with
+                Err(_) if has_payload => {
+                    obs.class("reference_panics_on_nan_payload");
+                    return Ok(());
+                },
+                Err(e) => return fail(format!("{}:reference-panic", name), e),
             };
             let got: Vec<$U> = match stat {
                 Stat::Fdiff(d) => sut::roll_vfdiff::<_, Option<f64>, Vec<$U>, $U>(&ca, d, w, mp, None).unwrap(),
@@ -132,6 +157,8 @@ fn check_rolling(p: &PlCase, obs: &mut Obs) -> CheckResult {
     if !matches!(stat, Stat::Fdiff(_)) {
         let out: Float64Chunked = sut::roll_valid::<_, Option<f64>, Float64Chunked, Option<f64>>(&ca, stat, w, mp, None).unwrap();
         let g: Series = out.into_iter().collect();
+        // (with a NaN payload a result may be Some(NaN): the reference must use the same output type)
+        let r: Series = if has_payload { sut::roll_valid::<_, Option<f64>, Vec<Option<f64>>, Option<f64>>(&v, stat, w, mp, None).unwrap() } else { r };
         if bits(&g) != bits(&r) || GetLen::len(&out) != x.len() {
             return fail(format!("{}:polars-output", name), format!("{} collected into a Polars array = {:?}, Vec reference {:?}", name, g, r));
         }
@@ -157,7 +184,8 @@ fn check_two(p: &PlCase, obs: &mut Obs) -> CheckResult {
 }
 
 fn check_access_map_agg(p: &PlCase, obs: &mut Obs) -> CheckResult {
-    let x = &p.c.x;
+    let xs = payload(p, obs);
+    let x = &xs;
     let ca = chunked(x, &p.cuts);
     classify(p, &ca, obs);
     let n = x.len();
